@@ -32,8 +32,8 @@ Definition jmix (a b c : N) : N * N * N :=
   let c := sub32 c b in let c := N.lxor c (rotl32 b 4)  in let b := wrap32 (b + a) in
   (a, b, c).
 
-(* c ^= b; c -= (b << 14) | (b >> 18); ... ; return c *)
-Definition jfinal (a b c : N) : N :=
+(* c ^= b; c -= (b << 14) | (b >> 18); ... (the caller returns c) *)
+Definition jfinal (a b c : N) : N * N * N :=
   let c := N.lxor c b in let c := sub32 c (rotl32 b 14) in
   let a := N.lxor a c in let a := sub32 a (rotl32 c 11) in
   let b := N.lxor b a in let b := sub32 b (rotl32 a 25) in
@@ -41,7 +41,7 @@ Definition jfinal (a b c : N) : N :=
   let a := N.lxor a c in let a := sub32 a (rotl32 c 4)  in
   let b := N.lxor b a in let b := sub32 b (rotl32 a 14) in
   let c := N.lxor c b in let c := sub32 c (rotl32 b 24) in
-  c.
+  (a, b, c).
 
 (* i := 0; for length-i > 12 { a += word(i); b += word(i+4); c += word(i+8); mix; i += 12 } *)
 Fixpoint jloop (fuel : nat) (name : bytes) (length i : nat) (a b c : N) : nat * N * N * N :=
@@ -82,7 +82,8 @@ Definition jenkins (name : bytes) : N :=
   let remaining := (length - i)%nat in
   match remaining with
   | O => c                                                           (* case 0: return c *)
-  | _ => let '(a, b, c) := jswitch name i remaining a b c in jfinal a b c
+  | _ => let '(a, b, c) := jswitch name i remaining a b c in
+         let '(_, _, c) := jfinal a b c in c                         (* return c *)
   end.
 
 (* ------------------------------------------------------------------------------------------ *)
